@@ -796,6 +796,15 @@ func (x *Exec) trCall(e *Expr, env *Env) (Term, error) {
 				return tBool(ok), nil
 			}
 			return val, nil
+		case "sameArray":
+			args, err := trArgs()
+			if err != nil {
+				return Term{}, err
+			}
+			if len(args) != 2 || args[0].Sort != SSlice || args[1].Sort != SSlice {
+				return Term{}, fmt.Errorf("sameArray(s, t) needs two slices")
+			}
+			return tBool(mkEq(app("s.arr", args[0].S), app("s.arr", args[1].S))), nil
 		case "hasPrefix", "hasSuffix":
 			args, err := trArgs()
 			if err != nil {
